@@ -11,3 +11,7 @@ mod traits;
 use orderer::CausalOrderer;
 pub use processor::{Orderer, OrdererError};
 pub use traits::Ordering;
+
+#[cfg(p2panda_p2panda_verif)]
+#[doc(hidden)]
+pub mod verif_c11;
